@@ -10,7 +10,7 @@
 using namespace Qentem;
 
 // Template print paths (C03): every way a {var:} tag can emit a string.
-//   tpl <auto> <w> <mode> <units>   modes: var ptr arr loopval loopkey echo raw rawptr svar svarb
+//   tpl <auto> <w> <mode> <units>   modes: var ptr ptr2 ptr3 rawptr2 loopptr2 svarptr2 iifptr2 arr loopval loopkey echo raw rawptr svar svarb
 //                                   (round c) nested positions: rawloop rawif rawelse rawiif rawiiff rawsvar varif variif
 //   tplc <auto> <w> <mode> <units>  the same, rendered through a copy-assigned copy of a copy-constructed copy of the
 //                                   parsed Array<TagBit> (original and first copy destroyed before the render)
@@ -28,6 +28,8 @@ static std::string doTpl(const std::string &mode, const std::vector<uint64_t> &u
     String<Char_T>       S(static_cast<const Char_T *>(in.p), SizeT(in.n));
     Value<Char_T>        value;
     Value<Char_T>        target;
+    Value<Char_T>        hop1;
+    Value<Char_T>        hop2;
     Str                  t;
     const Char_T         kx[] = {Char_T('x'), 0};
     const Char_T         kl[] = {Char_T('l'), 0};
@@ -40,6 +42,27 @@ static std::string doTpl(const std::string &mode, const std::vector<uint64_t> &u
         target = S;
         value[kx].SetPointerToValue(&target);
         t = lit<Char_T>(mode == "ptr" ? "{var:x}" : "{raw:x}");
+    } else if (mode == "ptr2" || mode == "ptr3" || mode == "rawptr2" || mode == "loopptr2" || mode == "svarptr2" ||
+               mode == "iifptr2") {
+        // the string is two / three pointer-to-value hops away
+        target = S;
+        hop1.SetPointerToValue(&target);
+        hop2.SetPointerToValue(&hop1);
+        Value<Char_T> *last = (mode == "ptr3") ? &hop2 : &hop1;
+        if (mode == "loopptr2") {
+            Value<Char_T> item;
+            item.SetPointerToValue(last);
+            value[kl] += static_cast<Value<Char_T> &&>(item);
+            t = lit<Char_T>("<loop set=\"l\" value=\"v\">{var:v}</loop>");
+        } else if (mode == "svarptr2") {
+            const Str ph0 = lit<Char_T>("{0}");
+            value[kp]     = String<Char_T>(static_cast<const Char_T *>(ph0.data()), SizeT(ph0.size()));
+            value[ka].SetPointerToValue(last);
+            t = lit<Char_T>("{svar:p, {var:a}}");
+        } else {
+            value[kx].SetPointerToValue(last);
+            t = lit<Char_T>(mode == "rawptr2" ? "{raw:x}" : mode == "iifptr2" ? "{if case=\"1\" true=\"{var:x}\" false=\"-\"}" : "{var:x}");
+        }
     } else if (mode == "arr") {
         value += S;
         t = lit<Char_T>("a{var:0}b");
